@@ -978,6 +978,14 @@ FEAT_STMTS = [
     ("comptime-expr", "x = comptime(1 + 2)"),
     ("comptime-list", "cs = comptime([1, 2, 3])\nx = cs[0]"),
     ("annotated-assign", "k: int = x\nw: float = 1.0\nx = k"),
+    # --- rebinding the name of a borrowed parameter
+    ("rebind-borrowed-def", "def q() -> None:\n    pass"),
+    ("rebind-borrowed-def-struct", "def sa() -> None:\n    pass"),
+    ("rebind-borrowed-def-array", "def xs(v: int) -> int:\n    return v"),
+    ("rebind-borrowed-for", "for xs in range(2):\n    pass"),
+    ("rebind-borrowed-assign", "xs = array(1, 2, 3)"),
+    ("rebind-borrowed-assign-type", "xs = 0"),
+    ("rebind-copyable-def", "def y() -> None:\n    pass"),
     # --- modifiers (experimental)
     ("with-control", "with control(q):\n    h(qs[0])", True),
     ("with-dagger", "with dagger:\n    h(q)", True),
